@@ -189,7 +189,7 @@ class Runner:
             for q in an:
                 # the change lies in the subtree of node q, and q's cache survived the op
                 if is_prefix(q, p) and bn.get(q) is not None and bn[q]["id"] == an[q]["id"] and an[q]["locked"] \
-                        and not (bn[q]["cache_id"] is not None and an[q]["cache_id"] != bn[q]["cache_id"]):
+                        and bn[q]["cache_id"] is not None and an[q]["cache_id"] == bn[q]["cache_id"]:
                     self.events.setdefault(q, []).append({"effect": eff, "at": p, "op": opkind, "target": getattr(self, "last_target", None)})
         return evs
 
@@ -230,6 +230,17 @@ class Runner:
                     e = self.explain(qs, ms)
                     if e is not None:
                         break
+        if e is None:
+            # D7/D62 leave a STATE inconsistency behind (a member that was unlocked alone lost _is_memmap): a lazy stack whose
+            # members disagree on the flag raises in is_memmap() as soon as a fresh computation runs — not a memoisation matter
+            try:
+                here = node_at(self.td, tuple(k for k in nodepath.split("/") if k))
+                for q, m in walk_nodes(here):
+                    if is_lazy(m) and len({bool(x.__dict__.get("_is_memmap")) for x in m.tensordicts}) > 1:
+                        e = {"effect": "flags", "at": nodepath, "op": "mm_sub_unlock_edit"}
+                        break
+            except Exception:  # noqa: BLE001
+                pass
         if e is not None:
             cause = CAUSE.get(e["op"], e["op"])
             if cause == "metadata-under-lock" and "_key_list" in methods and e.get("target") == nodepath:
@@ -566,10 +577,19 @@ class Runner:
 
     def step_observe(self, i):
         idmap = {id(n): "/".join(p) for p, n in walk_nodes(self.td)}
+        def reg(v, owner, depth=0):
+            # non-tensor entries are tensor collections with caches of their own: a NonTensorData wraps a TensorDict, a
+            # NonTensorStack is a lazy stack of NonTensorData — their hits are attributed to the node that owns the entry
+            if isinstance(v, torch.Tensor) or depth > 4:
+                return
+            idmap.setdefault(id(v), owner)
+            inner = getattr(v, "_tensordict", None)
+            if inner is not None:
+                idmap.setdefault(id(inner), owner)
+            for m in getattr(v, "tensordicts", None) or []:
+                reg(m, owner, depth + 1)
         for p, v in walk_leaves(self.td):
-            inner = getattr(v, "_tensordict", None)   # a tensorclass / NonTensorData wraps a TensorDict of its own
-            if inner is not None and not isinstance(v, torch.Tensor):
-                idmap.setdefault(id(inner), "/".join(p[:-1]))
+            reg(v, "/".join(p[:-1]))
         self.drain_hook(i, idmap)   # hits during the op itself
         self.compare_all(i)
         self.drain_hook(i, idmap)
